@@ -1,0 +1,16 @@
+// +build !verif
+
+// Package vhook provides verification hook points. Without the "verif" build
+// tag every function is an empty, inlinable no-op.
+package vhook
+
+const (
+	Before = 0
+	After  = 1
+)
+
+func Point(name string)                                 {}
+func PointI(name string, a, b int64)                    {}
+func PointS(name string, s string)                      {}
+func FS(phase int, op string, path string, off, n int64) {}
+func Mem(op string, addr uintptr, n int)                {}
